@@ -6,8 +6,8 @@ CONSTANTS
   Nows = {1, 2, 3}
   Ids = {0, 1}
   CancelIds = {1}
-  MaxSleeps = 3
-  MaxHeap = 4
+  MaxSleeps = 2
+  MaxHeap = 3
   MaxOps = 0
   AllowRemove = FALSE
   Interval = 2
